@@ -112,6 +112,16 @@ def format_sym(x: Sym, spec: str) -> str:
                 # negative numbers need one more character
                 ctx.assume(core.And(x < _pow10(k), x > -_pow10(k - 1) if k >= 2 else x >= 0))
                 content = width - 1
+            elif policy == "over" and builtins.bool(core.Or(x >= _pow10(width - tail), x <= -_pow10(width - tail - 1))):
+                # the value needs more characters than the column has: Python widens the field (by one or two here)
+                k = width - tail
+                ctx.scratch["full_used"] = ctx.scratch.get("full_used", 0) + 1
+                note = "over"
+                if builtins.bool(core.Or(core.And(x >= _pow10(k), x < _pow10(k + 1)), core.And(x <= -_pow10(k - 1), x > -_pow10(k)))):
+                    content = width + 1
+                else:
+                    ctx.assume(core.Or(core.And(x >= _pow10(k + 1), x < _pow10(k + 2)), core.And(x <= -_pow10(k), x > -_pow10(k + 1))))
+                    content = width + 2
             else:
                 # fork: value fills its column completely / leaves at least one blank
                 k = width - tail
